@@ -181,9 +181,14 @@ func verifRunLoop(limit int, stops []string, script []verifEv) (res verifLoopRes
 
 // ---------------------------------------------------------------- case line <-> case
 
+// verifPinnedFindStop selects the model variant the oracle runs: 1 = FindStop as pinned (first
+// listed stop), 0 = the repaired FindStop of proposed_fixes/C14-F7.patch (earliest occurrence).
+// Flip to 0 (here and in runner_common/zz_verif_c14_test.go) when the fix is applied to /repo.
+const verifPinnedFindStop = 1
+
 func verifLoopLine(limit int, stops []string, script []verifEv) string {
 	var sb strings.Builder
-	fmt.Fprintf(&sb, "loop %d %d", limit, len(stops))
+	fmt.Fprintf(&sb, "loop %d %d %d", verifPinnedFindStop, limit, len(stops))
 	for _, st := range stops {
 		sb.WriteString(" " + zzverif.Hex([]byte(st)))
 	}
@@ -200,15 +205,15 @@ func verifLoopLine(limit int, stops []string, script []verifEv) string {
 
 func verifParseLoopLine(line string) (limit int, stops []string, script []verifEv, err error) {
 	toks := strings.Fields(line)
-	if len(toks) < 4 || toks[0] != "loop" {
+	if len(toks) < 5 || toks[0] != "loop" {
 		return 0, nil, nil, errors.New("not a loop line")
 	}
-	limit, err = strconv.Atoi(toks[1])
+	limit, err = strconv.Atoi(toks[2]) // toks[1] is the model-variant flag
 	if err != nil {
 		return
 	}
-	ns, _ := strconv.Atoi(toks[2])
-	p := 3
+	ns, _ := strconv.Atoi(toks[3])
+	p := 4
 	for i := 0; i < ns; i++ {
 		stops = append(stops, string(zzverif.Unhex(toks[p])))
 		p++
@@ -606,7 +611,7 @@ func TestVerifC14Loop(t *testing.T) {
 		a, _ := verifRunLoop(0, []string{"x"}, []verifEv{{piece: "a"}, {eos: true}})
 		b, _ := verifRunLoop(0, []string{"x"}, []verifEv{{piece: "a"}, {piece: "x"}})
 		if a.reason == b.reason {
-			out.L2("reason-two-values-three-causes", "loop 0 1 78 2 61 E", fmt.Sprintf("class=eos-and-stop-string-share-reason eos=%s stopstring=%s", a.reason, b.reason))
+			out.L2("reason-two-values-three-causes", "loop 1 0 1 78 2 61 E", fmt.Sprintf("class=eos-and-stop-string-share-reason eos=%s stopstring=%s", a.reason, b.reason))
 		}
 	}
 	verifExhaustive(out, zzverif.EnvInt("VERIF_EXH", 5))
